@@ -1016,3 +1016,17 @@ Proof.
   - exists st2, o2. repeat split; try assumption. rewrite D. apply next_tid_mod. unfold tid_ok in Ht1. lia.
 Qed.
 End Corollaries.
+
+(* ------------------------------------------------------------------ after repairs 10/11 of /repo (RTU framer loops over
+   the frames of a read; a frame of another unit is skipped, not reset): a frame of unit 6 followed by the own exception
+   reply of unit 5 in ONE read returns the own reply.  T = transitions recorded from the repaired ModbusRtuFramer. *)
+Definition tab_foreign_own : ftable := {| ft_nonempty := [(0, false)]; ft_reset := [];
+   ft_process := [(0, [6;1;1;5;144;255;5;131;2;129;48]%N, 5, (1, [{| m_tid := 5; m_uid := 5; m_fc := 131; m_id := 1 |}], None))];
+   ft_build := [(12005, 8, [5;3;0;0;0;20;68;65]%N)] |}.
+Definition rq_big : req := {| r_unit := 5; r_fc := 3; r_psize := Some 42; r_id := 12005 |}.
+
+Lemma foreign_then_own_example :
+  exists m, o_res (snd (execute code Z (table_framer tab_foreign_own) cfg_rtu0 (st0 7) rq_big
+                        [Nothing; Nothing; Data [6;1]%N; Data [1;5;144;255;5;131;2;129;48]%N])) = RReply m
+            /\ m_uid m = r_unit rq_big /\ m_fc m = Z.lor (r_fc rq_big) 128.
+Proof. eexists. vm_compute. repeat split. Qed.
